@@ -258,7 +258,18 @@ func (ex *Exec) chanCanRecv(c *ChanV) bool {
 	if c.ctx != nil && c.ctx.isCancelled() {
 		return true
 	}
-	return len(c.buf) > 0 || len(c.offers) > 0 || c.closed
+	return len(c.buf) > 0 || c.offerReady() || c.closed
+}
+
+// offerReady: the first pending external sender is ready (its precondition channel has been drained).
+func (c *ChanV) offerReady() bool {
+	if len(c.offers) == 0 {
+		return false
+	}
+	if len(c.offerAfter) > 0 && c.offerAfter[0] != nil && len(c.offerAfter[0].offers) > 0 {
+		return false
+	}
+	return true
 }
 
 func (c *CtxV) isCancelled() bool {
@@ -279,9 +290,12 @@ func (ex *Exec) chanRecv(c *ChanV) (Value, bool) {
 		c.buf = c.buf[1:]
 		return v, true
 	}
-	if len(c.offers) > 0 {
+	if c.offerReady() {
 		v := c.offers[0]
 		c.offers = c.offers[1:]
+		if len(c.offerAfter) > 0 {
+			c.offerAfter = c.offerAfter[1:]
+		}
 		return v, true
 	}
 	if c.closed || (c.ctx != nil && c.ctx.isCancelled()) {
